@@ -506,7 +506,7 @@ class Program:
         o.hooked = True
         if self.kind == "progress":
             self._mirror(lambda m: m.refresh())  # Progress.start() refreshes
-        o.begin_op("start", [("frame",)] if self.kind == "progress" else [])
+        o.begin_op("start", [("frame",)], optional_frame=not (self.kind == "progress"))
 
     def _after_start(self):
         o = self.oracle
